@@ -179,6 +179,13 @@ def c18(r):
     r.tlc_validate("ConfigTrace", t, ["C18."])
 
 
+def c12(r):
+    import os, vlib
+    r.tlc_exhaustive("Wire.tla", "Wire.cfg", workers=2)
+    t = r.drive("wire", ["-arg", os.path.join(vlib.VERIF, "golden")], name="wire")
+    r.tlc_validate("WireTrace", t, ["C12."])
+
+
 def c05(r):
     syncer(r, ["C05.", "C02."], crash=True)
 
@@ -211,7 +218,7 @@ def c08(r):
     submitter(r, ["C08."])
 
 
-PIPELINES = {"C01": c01, "C04": c04, "C02": c02, "C05": c05, "C06": c06, "C07": c07, "C08": c08, "C03": c03, "C09": c09, "C10": c10, "C11": c11, "C17": c17, "C13": c13, "C14": c14, "C15": c15, "C20": c20, "C16": c16, "C19": c19, "C18": c18}
+PIPELINES = {"C01": c01, "C04": c04, "C02": c02, "C05": c05, "C06": c06, "C07": c07, "C08": c08, "C03": c03, "C09": c09, "C10": c10, "C11": c11, "C17": c17, "C13": c13, "C14": c14, "C15": c15, "C20": c20, "C16": c16, "C19": c19, "C18": c18, "C12": c12}
 ASSUME = {}
 FINISH = {}
 
@@ -220,4 +227,4 @@ def REPLAY_MONITOR(pid, path):
     import os
     import re
     m = re.match(r"%s-([A-Za-z0-9]+)-" % pid, os.path.basename(path))
-    return m.group(1) if m else {"C01": "ProducerTrace", "C04": "ProducerTrace", "C02": "SyncTrace", "C05": "SyncTrace", "C03": "SyncTrace", "C09": "SyncTrace", "C10": "QueueTrace", "C11": "FlowTrace", "C17": "LazyTrace", "C13": "WorldTrace", "C14": "StoreTrace", "C15": "KVTrace", "C20": "BasedTrace", "C16": "ProxyTrace", "C19": "KeyTrace", "C18": "ConfigTrace", "C06": "SubmitTrace", "C07": "SubmitTrace", "C08": "SubmitTrace"}[pid]
+    return m.group(1) if m else {"C01": "ProducerTrace", "C04": "ProducerTrace", "C02": "SyncTrace", "C05": "SyncTrace", "C03": "SyncTrace", "C09": "SyncTrace", "C10": "QueueTrace", "C11": "FlowTrace", "C17": "LazyTrace", "C13": "WorldTrace", "C14": "StoreTrace", "C15": "KVTrace", "C20": "BasedTrace", "C16": "ProxyTrace", "C19": "KeyTrace", "C18": "ConfigTrace", "C12": "WireTrace", "C06": "SubmitTrace", "C07": "SubmitTrace", "C08": "SubmitTrace"}[pid]
